@@ -35,5 +35,36 @@ def opLift : Handler := fun args impl =>
     | _, _, _, _ => bad
   | _ => bad
 
-def ops : List (String × Handler) := [("pm.lift", opLift)]
+/-- `pm.hlift p q c a b u v` ⇒ `a1|b1|qr`: one Hensel step. Oracle = the conclusion of Cohen 3.5.5 (what
+`henselLift_full` proves about the model): when c ≡ a·b (mod q) and a·u + b·v ≡ 1 (mod gcd(p,q)), then
+qr = q·gcd(p,q), c ≡ a1·b1 (mod qr), a1 ≡ a and b1 ≡ b (mod q); otherwise outside the domain -/
+def opHlift : Handler := fun args impl =>
+  match args with
+  | [ps, qs, cs, as, bs, us, vs] =>
+    match ps.toInt?, qs.toInt?, parseInts? cs, parseInts? as, parseInts? bs, parseInts? us, parseInts? vs with
+    | some p, some q, some c, some a, some b, some u, some v =>
+      if p == 0 || q == 0 then bad else
+      let (a1, b1, qr) := henselLift p q c a b u v
+      let model := s!"{showInts a1}|{showInts b1}|{qr}"
+      let r : Int := Int.gcd p q
+      let congr (m : Int) (x y : List Int) : Bool :=
+        (NTV.Spec.Poly.subSpec x y).all (fun t => t % m == 0)
+      let pre := congr q c (NTV.Spec.Poly.mulSpec a b) &&
+        congr r (NTV.Spec.Poly.addSpec (NTV.Spec.Poly.mulSpec a u) (NTV.Spec.Poly.mulSpec b v)) [1]
+      let vd :=
+        if !pre then "skip:precondition"
+        else match impl.splitOn "|" with
+          | [x, y, z] => match parseInts? x, parseInts? y, z.toInt? with
+            | some ia, some ib, some iqr =>
+              if iqr != q * r then "fail:modulus"
+              else if !(congr (q * r) c (NTV.Spec.Poly.mulSpec ia ib)) then "fail:c-not-congruent-to-a1*b1"
+              else if !(congr q ia a && congr q ib b) then "fail:factors-changed-modulo-q"
+              else "ok"
+            | _, _, _ => "fail:unexpected-" ++ impl
+          | _ => "fail:unexpected-" ++ impl
+      (model, vd)
+    | _, _, _, _, _, _, _ => bad
+  | _ => bad
+
+def ops : List (String × Handler) := [("pm.lift", opLift), ("pm.hlift", opHlift)]
 end NTV.Driver.C11
